@@ -376,6 +376,9 @@ def run(ctx):
                  ('R-CLASSSTATE', 'no method changes a mutable class-level attribute through self (shared by all instances) without re-binding it on the instance'),
                  ('R-NONEGUARD', 'an optional parameter that is used as a number is tested with `is None`, never by truthiness (0 is a value)'),
                  ('R-SWAP', 'no two-statement swap through the container itself (x[i] = x[j]; x[j] = x[i])'),
+                 ('R-FALSYDEFAULT', 'an attribute / keyword looked up with getattr or .get is not defaulted with `or`: a value that is present but falsy (empty units, 0, 0.0) is not absent'),
+                 ('R-STALEVAR', 'no loop body reads the loop variable of an earlier, finished loop (bound nowhere else): it would hold that loop\'s last value for every iteration'),
+                 ('R-GUARDOBJ', 'a `K not in A.dimensions / A.variables` guard adds K to A itself, not to another file'),
                  ('R-SIBLING', 'neighbouring statements that differ by one role swap (x/y, COL/ROW, tau0/tau1, llod/ulod, B/E) are adapted in every leaf')):
         if r not in ctx.rules:
             ctx.rule(r, d)
@@ -422,6 +425,20 @@ def run(ctx):
             for st, pn in truthy_numeric_defaults(fn):
                 ctx.violation(Finding('R-NONEGUARD', rp, q, st, 'the optional parameter %s is defaulted by truthiness (%s) although it is used as a number: a requested 0 (midnight, first layer, empty length) '
                                       'is silently replaced by the default' % (pn, norm(st)[:50])), oid='generic:%s:%s' % (q, pn))
+            for n_ in ast.walk(fn):
+                if isinstance(n_, ast.BoolOp) and isinstance(n_.op, ast.Or) and isinstance(n_.values[0], ast.Call) and \
+                        (dotted(n_.values[0].func) == 'getattr' or (isinstance(n_.values[0].func, ast.Attribute) and n_.values[0].func.attr == 'get')) \
+                        and isinstance(n_.values[-1], ast.Constant):
+                    from . import api
+                    ctx.violation(Finding('R-FALSYDEFAULT', rp, q, api.stmt_of(n_), '`%s`: a value that is present but falsy (an empty string, 0) is replaced by the default as if it were absent' % norm(n_)[:70]),
+                                  oid='generic:%s:falsy:%s' % (q, norm(n_)[:40]))
+            for nm_, lp_, rd_ in lints.stale_loop_variables(fn):
+                from . import api
+                ctx.violation(Finding('R-STALEVAR', rp, q, api.stmt_of(rd_), '%s is the loop variable of `for %s in %s` above and is bound nowhere else; this later loop reads it in its body, where it keeps the last value '
+                                      'of the finished loop for every iteration' % (nm_, norm(lp_.target), norm(lp_.iter)[:40])), oid='generic:%s:stale:%s' % (q, nm_))
+            for st_, a_, b_ in lints.guard_object_mismatch(fn):
+                ctx.violation(Finding('R-GUARDOBJ', rp, q, st_, 'the guard asks %s whether the name is missing but the name is then added to %s: when %s already has it nothing is created in %s' % (a_, b_, a_, b_)),
+                              oid='generic:%s:guard:%s' % (q, norm(st_.test)[:40]))
             for a_, b_ in broken_swaps(fn):
                 ctx.violation(Finding('R-SWAP', rp, q, b_, '`%s` follows `%s`: it reads the element the first statement has just overwritten, so both positions end up with the same value' % (norm(b_)[:40], norm(a_)[:40])),
                               oid='generic:%s:%s' % (q, norm(b_)[:40]))
@@ -430,7 +447,7 @@ def run(ctx):
                 ctx.violation(Finding('R-ONESHOT', rp, q, api.stmt_of(use), '%s is a one-shot iterator (%s) and is consumed again here: the second pass sees nothing' % (g, norm(st.value)[:40])),
                               oid='generic:%s:%s' % (q, g))
     ok_note = '%d functions, %d parameters in %d anchored files' % (nfun, npar, len(files))
-    for r in ('R-PARAMUSED', 'R-NOSTATE', 'R-ELEMENTWISE', 'R-CALLED', 'R-ONESHOT', 'R-MODSTATE', 'R-SIBLING', 'R-CLASSSTATE', 'R-NONEGUARD', 'R-SWAP'):
+    for r in ('R-PARAMUSED', 'R-NOSTATE', 'R-ELEMENTWISE', 'R-CALLED', 'R-ONESHOT', 'R-MODSTATE', 'R-SIBLING', 'R-CLASSSTATE', 'R-NONEGUARD', 'R-SWAP', 'R-STALEVAR', 'R-GUARDOBJ', 'R-FALSYDEFAULT'):
         if not any(o['rule'] == r and o['status'] == 'violated' and str(o.get('id', '')).startswith('generic:') for o in ctx.obligations):
             ctx.ok(r, 'generic:%s' % r, 'anchored files of %s' % ctx.prop, ok_note)
     ctx.count('functions under the generic rules', nfun)
